@@ -149,16 +149,22 @@ func main() {
 	}
 	rep := report.New("C10", tier, "model_checking")
 	rep.Rule = "E2 (stateless, no dedup: closure-captured state cannot be fingerprinted): ALL sequences of up to 4 (thorough 5) operations Build(i,j) / Call(slot, point) over two sets of 5 (6) spatial references parsed once per sequence (set A: 7-parameter tmerc/OSGB36, 3-parameter lcc/potsdam, the registered EPSG:4326 (and EPSG:3857), long/lat with +axis=neu and with +axis=wsu on a 7-parameter datum; set B: three UTM references of which two share a zone on different ellipsoids/datums, EPSG:4326, krovak), two points per reference; every call must return what a freshly built transformer from freshly parsed definitions returns when called once; the reference values are recomputed after the sweep to detect changes of the registered globals. E1: structure trees of all eight types x transformers {nil, affine, fail on the k-th call for every k <= Len}: same type and nesting (*Bounds -> 4-vertex polygon), i-th vertex = t(i-th vertex), input unchanged, error returned, no panic. Non-trivial = sequences that call some transformer at least twice or interleave two transformers."
-	depth := 4
-	// reference sets: every sequence is enumerated over each set in turn
-	sets := [][]int{{0, 1, 2, 4, 5}, {6, 8, 9, 2, 7}}
+	// (set, depth) pairs: every sequence up to the depth is enumerated over each set
+	type plan struct {
+		use   []int
+		depth int
+	}
+	plans := []plan{{[]int{0, 1, 2, 4, 5}, 4}, {[]int{6, 8, 9, 2, 7}, 4}}
 	if tier == "thorough" {
-		depth = 5
-		sets = [][]int{{0, 1, 2, 3, 4, 5}, {6, 8, 9, 2, 7, 3}}
+		plans = []plan{
+			{[]int{0, 1, 2, 3, 4, 5}, 4}, {[]int{6, 8, 9, 2, 7, 3}, 4},
+			{[]int{0, 1, 2, 5}, 5}, {[]int{6, 8, 9, 2}, 5}, {[]int{0, 6, 3, 4}, 5}, {[]int{1, 7, 8, 5}, 5},
+		}
 	}
 	ref := map[[3]int]val{}
 	var nseq, ncalls, nontrivial int64
-	for _, use := range sets {
+	for _, pl := range plans {
+		use, depth := pl.use, pl.depth
 		// reference values
 		for _, i := range use {
 			for _, j := range use {
